@@ -40,15 +40,16 @@ impl<'a, K, T> Entry<'a, K, Vec<T>> {
             forall|k2: K| k2 != self.vx_key() && self.vx_old().view().dom().contains(k2) ==> self.vx_fin().view()[k2] == self.vx_old().view()[k2],
     { unimplemented!() }
 }
+/// `r` lists the entries of `m`: every key exactly once, in increasing key order, with its value
+pub open spec fn btm_sorted_entries<V>(m: Map<ChainEpoch, V>, r: Seq<(ChainEpoch, V)>) -> bool {
+    &&& r.len() == m.dom().len()
+    &&& forall|i: int| 0 <= i < r.len() ==> m.dom().contains(#[trigger] r[i].0) && r[i].1 == m[r[i].0]
+    &&& forall|i: int, j: int| 0 <= i < j < r.len() ==> (#[trigger] r[i]).0 < (#[trigger] r[j]).0
+    &&& forall|k: ChainEpoch| m.dom().contains(k) ==> exists|i: int| 0 <= i < r.len() && #[trigger] r[i].0 == k
+}
 impl<V> BTreeMap<ChainEpoch, V> {
     /// `map.into_iter()` (consumed to its end): every key exactly once, in increasing key order, with its value
     #[verifier::external_body]
-    pub fn vx_into_sorted(self) -> (r: Vec<(ChainEpoch, V)>)
-        ensures
-            r@.len() == self.view().dom().len(),
-            forall|i: int| 0 <= i < r@.len() ==> self.view().dom().contains(#[trigger] r@[i].0) && r@[i].1 == self.view()[r@[i].0],
-            forall|i: int, j: int| 0 <= i < j < r@.len() ==> (#[trigger] r@[i]).0 < (#[trigger] r@[j]).0,
-            forall|k: ChainEpoch| self.view().dom().contains(k) ==> exists|i: int| 0 <= i < r@.len() && #[trigger] r@[i].0 == k,
-    { unimplemented!() }
+    pub fn vx_into_sorted(self) -> (r: Vec<(ChainEpoch, V)>) ensures btm_sorted_entries(self.view(), r@) { unimplemented!() }
 }
 } // verus!
